@@ -100,6 +100,19 @@ def _k_body(case, res):
     tgt = Target(case['steps'], 'tgt')
     by = Target(2, 'bystander')
     res['tgt'], res['by'] = tgt, by
+    res['kill_errors'] = []
+    real_kill = tgt.kill
+
+    def kill():
+      # kill() reports nothing to its caller, whatever the target is doing (the executor calls it from join_or_die and
+      # from the abort path: an exception there loses the teardown)
+      try:
+        real_kill()
+      except (sched.Deadlock, sched.SchedulerStuck):
+        raise
+      except BaseException as e:  # pylint: disable=broad-except
+        res['kill_errors'].append(type(e).__name__)
+    tgt.kill = kill
     by.start()
     for _ in range(case['before']):
       tgt.kill()
@@ -213,6 +226,8 @@ def _run_k(case, chooser=None):
     facts.append('X:deadlock')
   elif 'sched_error' in box:
     facts.append('X:scheduler-stuck')
+  for e in sorted(set(res.get('kill_errors', []))):
+    facts.append('X:kill-raised-in-its-caller:' + e)
   if any(op == 'tte-in-body' or op == 'tte-in-handlers' for (th, op, obj, extra) in s.events if obj is res['by']):
     facts.append('X:exception-raised-in-another-thread:bystander')
   return {'toks': toks, 'real': [int(body_ran), int(rb), int(rh), int(fin)], 'facts': facts}
